@@ -484,6 +484,59 @@ def combo_worker(job):
         case.cleanup()
 
 
+def circ_same_site_worker(job):
+    """a SMALL circRNA (length preferably not a multiple of three: the ORF runs for several laps) and
+    TWO small records at the same nucleotide inside it (an SNV and an insertion, in two GVF files): a
+    node of the circular graph then has three incoming routes.  Metamorphic: the run with both records
+    contains the runs with one of them."""
+    seed, tier, opts = job
+    rng = random.Random(seed)
+    out = {'stats': {}, 'seed': seed}
+    case = gen_ref.Case(gen_ref.work_dir('csame'))
+    try:
+        with gen_ref.quiet():
+            gen_ref.make_reference(case, seed, 1)
+            genome, anno, _ = gen_ref.load_reference(case)
+        tx = list(anno.transcripts)[0]
+        circ = gen_ref.small_circ(anno, tx, rng)
+        if circ is None:
+            out['stats']['no_small_circ'] = 1
+            return out
+        pos = gen_ref.circ_positions(anno, tx, circ, margin=4)
+        x = y = None
+        for _ in range(30):
+            if not pos:
+                break
+            q = rng.choice(pos)
+            try:
+                x = gen_ref.small_variant(anno, genome, tx, q, 'SNV', 1, rng)
+                y = gen_ref.small_variant(anno, genome, tx, q, 'INS', rng.choice([3, 3, 1, 2]), rng)
+            except Exception:   # noqa
+                x = y = None
+            if x is not None and y is not None:
+                break
+        if x is None or y is None:
+            out['stats']['no_site'] = 1
+            return out
+        kw = cv_explore.default_kw(rng, True, None)
+        out['desc'] = {'seed': seed, 'kw': kw, 'circ': circ.id, 'records': [x.id, y.id]}
+        runs = {}
+        for tag, recs in (('x', [x]), ('y', [y]), ('xy', [x, y])):
+            with gen_ref.quiet():
+                gen_ref.write_gvfs(case, recs + [circ])
+            r = gen_ref.run_call_variant(case, tag=tag, **kw)
+            runs[tag] = {'status': r.status, 'real': sorted(r.fasta.keys())}
+        out['runs'] = runs
+        out['stats']['runs'] = 1
+        return out
+    except Exception:   # noqa
+        out['stats']['worker_error'] = 1
+        out['error'] = traceback.format_exc()[-1500:]
+        return out
+    finally:
+        case.cleanup()
+
+
 def fusion_dense_worker(job):
     """two genes, ONE fusion with an exonic accepter breakpoint and 6-7 SNVs spaced 3-4 nt on the
     ACCEPTER right behind the breakpoint (one bubble inside the fusion subgraph, below the 13 records
@@ -618,10 +671,9 @@ def circ_dup_worker(job):
         case.cleanup()
 
 
-def fusion_chain(case, out, seed, rng, genome, anno, txs):
-    """a CHAIN of fusions: B -> C with the donor breakpoint inside an intron of B, and A -> B with A
-    ranked before B — B's variant series is loaded twice in one run (as the accepter of A's fusion,
-    then on its own turn).  Same metamorphic relation: both records together = union."""
+def find_fusion_chain(anno, genome, rng, txs):
+    """(f1, f2): f1 = B -> C with the donor breakpoint inside an intron of B, f2 = A -> B with A in front
+    of B in annotation order; (None, None) / (None, 'nochain') when the reference has none"""
     import copy
     import random as _r
     from moPepGen import fake
@@ -641,8 +693,7 @@ def fusion_chain(case, out, seed, rng, genome, anno, txs):
         f1 = f
         break
     if f1 is None:
-        out['stats']['no_intronic_fusion'] = 1
-        return out
+        return None, None
     b = f1.attrs['TRANSCRIPT_ID']
     before = order[:order.index(b)]
     for _ in range(400):
@@ -656,8 +707,22 @@ def fusion_chain(case, out, seed, rng, genome, anno, txs):
             f2 = f
             break
     if f2 is None:
-        out['stats']['no_chain'] = 1
+        return None, 'nochain'
+    return f1, f2
+
+
+def fusion_chain(case, out, seed, rng, genome, anno, txs):
+    """a CHAIN of fusions: B -> C with the donor breakpoint inside an intron of B, and A -> B with A
+    ranked before B — B's variant series is loaded twice in one run (as the accepter of A's fusion,
+    then on its own turn).  Same metamorphic relation: both records together = union."""
+    import copy
+    import random as _r
+    from moPepGen import fake
+    f1, f2 = find_fusion_chain(anno, genome, rng, txs)
+    if f1 is None:
+        out['stats']['no_intronic_fusion' if f2 is None else 'no_chain'] = 1
         return out
+    b = f1.attrs['TRANSCRIPT_ID']
     out['stats']['fusion_chain_intronic'] = 1
     kw = cv_explore.default_kw(rng, True, None)
     out['desc'] = {'seed': seed, 'kw': kw, 'donor': b, 'fusions': [f1.id, f2.id], 'chain': True}
